@@ -660,6 +660,9 @@ def _create_aggregate_by_p_id_functions(
         for k, v in aggregate_by_p_id_dict.items()
     ]
 
+    # Source columns may also be derived from data columns given in another time unit.
+    time_converted_data_cols = create_time_conversion_functions({}, data_cols)
+
     aggregate_by_p_id_functions = {
         agg_by_p_id_col: _create_one_aggregate_by_p_id_func(
             agg_specs=agg_by_p_id_spec,
@@ -669,6 +672,7 @@ def _create_aggregate_by_p_id_functions(
         if (
             agg_by_p_id_spec["source_col"] in user_and_internal_functions
             or agg_by_p_id_spec["source_col"] in data_cols
+            or agg_by_p_id_spec["source_col"] in time_converted_data_cols
         )
     }
 
